@@ -406,6 +406,8 @@ class DBNInference(Inference):
                     for k, v in evidence_prev_time.items()
                     if k in self.interface_nodes_0
                 }
+            else:
+                interface_nodes_dict = {}
             if evidence_time:
                 evidence_time.update(interface_nodes_dict)
             mid_bp = BeliefPropagation(self.one_and_half_junction_tree)
